@@ -244,3 +244,38 @@ PLAN["C07"] = {
     "thorough": [{"test": "TestC07_Insertion", "checks": 150, "shards": 8, "timeout": 3000},
                  {"test": "TestC07_Deletion", "checks": 150, "shards": 8, "timeout": 3000}],
 }
+
+PLAN["C11"] = {
+    "level": "exploration",
+    "rule": ("(Small, rapid) many independent proving systems: ProvingSystem values whose constraint system is a generated tiny circuit (1-40 multiplications, 0-3 bit-decomposition hints, 1-3 public inputs; fresh Groth16 setup each) and "
+             "whose TreeDepth/BatchSize are arbitrary uint32 with distinct bytes (0x01020304, 0x0A0B0C0D, 0, 2^32-1, ...), pushed through a drawn sequence of 1-4 operations from {write compressed + read, write raw + read, "
+             "the same through ReadSystemFromFile on a temp file}. (Real, rapid) real systems (quick: deletion depth 2/batch 3; thorough: + insertion (3,2), (4,1), deletion (1,4)) through file-raw, compressed+raw, and in thorough the CLI "
+             "convert-to-raw, followed by cross prove/verify of generated valid batches through ProveX/VerifyX in both directions. Oracle after every operation: same depth and batch, and gnark's raw serialisation of pk and vk and the serialised "
+             "constraint system are byte-identical to the original's; reported byte counts equal the real ones; reloaded proves => original verifies and vice versa. Non-trivial = depth != batch with at least one conversion, or a real system; "
+             "distinct = SHA-1 of (shape, operations)."),
+    "assumptions": A_COMMON + ["gnark's WriteRawTo/WriteTo of keys and constraint systems are trusted as canonical forms for equality"],
+    "technique": "round-trip property testing over many independent small proving systems and operation sequences, plus real systems with cross prove/verify",
+    "level_text": "Exploration: hundreds of independent small systems per run with byte-distinct header values, all four read/write paths in sequences; real systems at depth != batch dimensions with interchangeability checked by actual proofs.",
+    "level_note": "small systems exercise the same WriteTo/WriteRawTo/UnsafeReadFrom/ReadSystemFromFile code as real ones (the code is circuit-agnostic); real systems are fewer because files are tens of MB",
+    "quick": [{"test": "TestC11_Small", "checks": 600, "shards": 2, "timeout": 900},
+              {"test": "TestC11_Real", "checks": 4, "timeout": 900}],
+    "thorough": [{"test": "TestC11_Small", "checks": 4000, "shards": 8, "timeout": 3000},
+                 {"test": "TestC11_Real", "checks": 10, "shards": 4, "cli": True, "timeout": 3000}],
+}
+
+PLAN["C15"] = {
+    "level": "fault_enumeration",
+    "rule": ("fault = the file ends after k bytes. (SmallAllOffsets) for each rapid-drawn small proving system (as C11; files of 3-12 KB) and BOTH formats: EVERY cut offset 0..len-1 through UnsafeReadFrom on a bytes reader (exhaustive per file), "
+             "and every ~150th offset plus the last through ReadSystemFromFile on a truncated temp file. (Real) real systems of tens of MB (quick: insertion (1,1) raw; thorough: + compressed and deletion (3,2)): all offsets 0..8, each section "
+             "boundary +-{0,1,2,7,8,9,63,64,65}, 1/2/9 bytes short of complete, and rapid-drawn offsets inside the proving-key, verifying-key and constraint-system sections, through the reader, ReadSystemFromFile and (thorough) the CLI commands "
+             "prove/verify/export-vk/convert-to-raw/start. Oracle: an error is returned (non-zero exit; 'start' never keeps running), no panic, an answer within 50x the time of a full read + 5 s; the complete file loads (positive control per file). "
+             "Non-trivial = offset >= 8 (past the header); enumerated offsets are distinct by construction, drawn ones by SHA-1."),
+    "assumptions": A_COMMON + ["only strict prefixes of valid files are in the domain; arbitrary corrupt bytes are not fed to the reader (gnark allocates from length prefixes)"],
+    "technique": "fault enumeration over every truncation point of small files; structured and sampled truncation points of real files",
+    "level_text": "Fault enumeration: exhaustive over all cut points for several small systems per run in both formats (tens of thousands of prefixes), structured + sampled cut points on real multi-MB files.",
+    "level_note": "exhaustive only for the small systems; the reader code is the same for small and real systems, section sizes differ",
+    "quick": [{"test": "TestC15_SmallAllOffsets", "checks": 2, "shards": 4, "timeout": 900},
+              {"test": "TestC15_Real", "checks": 40, "timeout": 900}],
+    "thorough": [{"test": "TestC15_SmallAllOffsets", "checks": 5, "shards": 10, "timeout": 3000},
+                 {"test": "TestC15_Real", "checks": 150, "shards": 4, "cli": True, "timeout": 3000}],
+}
